@@ -41,10 +41,15 @@ IsContribution(q) == \/ (Len(q) >= 3 /\ SubSeq(q, 1, 3) \in {"amu", "unc"})
 Names(p) == {q \in DOMAIN p[1].v : IsContribution(q)}
 AllFinite(p, q) == \A i \in 1..Len(p) : IsFin(p[i].v[q])
 Scale(p, q) == Max2(Abs(p[1].v[q]), Abs(p[NPts].v[q]))
+\* usable: the contribution changes by at most 20 % between the ends (property).  On MSSM paths (component "S") a
+\* Lagrangian parameter is moved, which moves several masses at once; there a steep but smooth dependence (e.g. a stau
+\* driven light by mu tan(beta)) bends the curve by more than 1 % of its size within the window although nothing is
+\* singular, so only paths with at most 5 % change are asserted (a smaller set of paths, never a weaker band).
+IsParamPath(p) == Len(p[1].sig) >= 2 /\ SubSeq(p[1].sig, 1, 2) = "S/"
 Usable(p, q) ==
   /\ IsFin(p[1].v[q]) /\ IsFin(p[NPts].v[q])
   /\ Lt(Zero, Scale(p, q))
-  /\ Le(Mul(OfInt(5), Abs(Sub(p[NPts].v[q], p[1].v[q]))), Scale(p, q))
+  /\ Le(Mul(OfInt(IF IsParamPath(p) THEN 20 ELSE 5), Abs(Sub(p[NPts].v[q], p[1].v[q]))), Scale(p, q))
 InBand(p, q, i) ==
   LET vm == p[1].v[q]   vp == p[NPts].v[q]
       h2 == Sub(p[NPts].d, p[1].d)                                 \* 2h
